@@ -8,6 +8,7 @@ from hypothesis.extra import numpy as hnp
 # shapes
 # ---------------------------------------------------------------------------------------------
 SIDE = st.sampled_from([1, 1, 2, 2, 3, 3, 4])
+BIG_SIDE = st.sampled_from([5, 6, 7, 8, 9, 11, 16, 17, 32])
 
 
 @st.composite
@@ -15,8 +16,12 @@ def shapes(draw, min_rank=0, max_rank=4, max_elems=120, side=SIDE):
     r = draw(st.sampled_from([k for k in (0, 1, 1, 2, 2, 2, 3, 3, 3, 4, 4, 5) if min_rank <= k <= max_rank]))
     shp = []
     n = 1
+    # one case in eight uses large sides (>= 5, up to 32) and four times the element budget
+    big = side is SIDE and draw(st.integers(0, 7)) == 0
+    if big:
+        max_elems = max_elems * 4
     for _ in range(r):
-        s = draw(side)
+        s = draw(BIG_SIDE if big and draw(st.booleans()) else side)
         if n * s > max_elems:
             s = 1
         shp.append(s)
@@ -116,7 +121,7 @@ def axis_geom(draw, kmax=3, smax=3, dmax=3, pmax=3, extra_max=3, pad_half=False)
     span = d * (k - 1) + 1
     pm = pmax if not pad_half else min(pmax, span // 2)
     p = draw(st.integers(0, pm))
-    L = max(1, span - 2 * p) + draw(st.integers(0, extra_max))
+    L = max(1, span - 2 * p) + draw(st.sampled_from(list(range(extra_max + 1)) * 3 + [7, 9, 14]))
     return {"k": k, "s": s, "d": d, "p": p, "L": L}
 
 
